@@ -43,6 +43,9 @@ type IPFIX struct {
 	stop    uint32
 	stats   IPFIXStats
 	pool    chan chan struct{}
+
+	// closed by run() once the template cache has been loaded
+	cacheLoaded chan struct{}
 }
 
 // IPFIXUDPMsg represents IPFIX UDP data
@@ -85,6 +88,8 @@ func NewIPFIX() *IPFIX {
 		port:    opts.IPFIXPort,
 		addr:    opts.IPFIXAddr,
 		workers: opts.IPFIXWorkers,
+
+		cacheLoaded: make(chan struct{}),
 	}
 }
 
@@ -125,6 +130,7 @@ func (i *IPFIX) run() {
 	}
 
 	mCache = ipfix.GetCache(opts.IPFIXTplCacheFile)
+	close(i.cacheLoaded)
 	go ipfix.RPC(mCache, &ipfix.RPCConfig{
 		Enabled: opts.IPFIXRPCEnabled,
 		Logger:  logger,
@@ -186,9 +192,14 @@ func (i *IPFIX) shutdown() {
 	logger.Println("stopping ipfix service gracefully ...")
 	time.Sleep(1 * time.Second)
 
-	// dump the templates to storage
-	if err := mCache.Dump(opts.IPFIXTplCacheFile); err != nil {
-		logger.Println("couldn't not dump template", err)
+	// dump the templates to storage, unless the signal came before they were
+	// even loaded: the file on disk is then still the one to keep
+	select {
+	case <-i.cacheLoaded:
+		if err := mCache.Dump(opts.IPFIXTplCacheFile); err != nil {
+			logger.Println("couldn't not dump template", err)
+		}
+	default:
 	}
 
 	// logging
